@@ -25,6 +25,9 @@ def jobs(tier):
             for k in windows:
                 nops = len(clients[0])
                 base = {"max": mx, "min": mn, "tasks": tasks, "clients": clients, "props": PROPS, "window_at": k}
+                if pname == "restart":
+                    # worker slots are not recycled: the second start() creates min_threads new threads
+                    base["W"] = max(mx + 1, 2 * mn + (1 if mn < mx else 0))
                 out.append((dict(base, name="c09-{0}-max{1}min{2}-op{3}".format(pname, mx, mn, k), twin_prog="progress"),
                             full if mx <= 2 else dict(full, depth=14)))
                 if False and thorough and mx <= 2 and k % 2 == 0:  # (context-bounded pool windows cost ~400 s each: C16 only)
